@@ -266,19 +266,94 @@ impl Queryable for Value {
     where
         T: Into<QueryPath>,
     {
-        convert_js_path(&path.into())
-            .ok()
-            .and_then(|p| self.pointer(p.as_str()))
+        let mut node = self;
+        for step in path_steps(&path.into())? {
+            node = match step {
+                PathStep::Name(name) => node.as_object()?.get(&name)?,
+                PathStep::Index(idx) => node.as_array()?.get(idx)?,
+            };
+        }
+        Some(node)
     }
 
     fn reference_mut<T>(&mut self, path: T) -> Option<&mut Self>
     where
         T: Into<QueryPath>,
     {
-        convert_js_path(&path.into())
-            .ok()
-            .and_then(|p| self.pointer_mut(p.as_str()))
+        let mut node = self;
+        for step in path_steps(&path.into())? {
+            node = match step {
+                PathStep::Name(name) => node.as_object_mut()?.get_mut(&name)?,
+                PathStep::Index(idx) => node.as_array_mut()?.get_mut(idx)?,
+            };
+        }
+        Some(node)
     }
+}
+
+/// A step of a path that consists of names and indexes only (a Normalized Path).
+enum PathStep {
+    Name(String),
+    Index(usize),
+}
+
+/// Splits a path into its steps; a name step only ever addresses an object member and
+/// an index step only an array element, so nothing of the member name is interpreted
+/// (a JSON Pointer would give `/` and `~` a meaning and conflate `'1'` with `1`).
+fn path_steps(path: &str) -> Option<Vec<PathStep>> {
+    let JpQuery { segments } = parse_json_path(path).ok()?;
+    segments
+        .into_iter()
+        .map(|segment| match segment {
+            Segment::Selector(Selector::Name(name)) => unquote_name(&name).map(PathStep::Name),
+            Segment::Selector(Selector::Index(idx)) => usize::try_from(idx).ok().map(PathStep::Index),
+            _ => None,
+        })
+        .collect()
+}
+
+fn hex4(chars: &mut std::str::Chars) -> Option<u32> {
+    let hex: String = chars.take(4).collect();
+    u32::from_str_radix(&hex, 16).ok().filter(|_| hex.len() == 4)
+}
+
+/// The member name a name selector stands for: quotes removed, escape sequences decoded.
+fn unquote_name(raw: &str) -> Option<String> {
+    let quote = raw.chars().next().filter(|c| *c == '\'' || *c == '"');
+    let inner = match quote {
+        Some(q) if raw.len() >= 2 && raw.ends_with(q) => &raw[1..raw.len() - 1],
+        Some(_) => return None,
+        None => return Some(raw.to_string()),
+    };
+    let mut name = String::with_capacity(inner.len());
+    let mut chars = inner.chars();
+    while let Some(c) = chars.next() {
+        if c != '\\' {
+            name.push(c);
+            continue;
+        }
+        match chars.next()? {
+            'b' => name.push('\u{0008}'),
+            'f' => name.push('\u{000C}'),
+            'n' => name.push('\n'),
+            'r' => name.push('\r'),
+            't' => name.push('\t'),
+            'u' => {
+                let first = hex4(&mut chars)?;
+                let code = if (0xD800..0xDC00).contains(&first) {
+                    if chars.next()? != '\\' || chars.next()? != 'u' {
+                        return None;
+                    }
+                    0x10000 + ((first - 0xD800) << 10) + hex4(&mut chars)?.checked_sub(0xDC00)?
+                } else {
+                    first
+                };
+                name.push(char::from_u32(code)?);
+            }
+            other => name.push(other),
+        }
+    }
+    Some(name)
 }
 
 fn convert_js_path(path: &str) -> Parsed<String> {
